@@ -71,8 +71,9 @@ TUPLES = {"T2": ("pos", 2), "T12": ("p", 12)}
 
 class Gen:
     def __init__(self, rng, max_priors=8, allow_arith=True, allow_array=True, allow_extra=True,
-                 allow_tuple=True, allow_pow=True, allow_fixed_obj=True, allow_copy=True):
+                 allow_tuple=True, allow_pow=True, allow_fixed_obj=True, allow_copy=True, allow_log=True):
         self.rng = rng
+        self.allow_log = allow_log
         self.allow_copy = allow_copy
         self.allow_fixed_obj = allow_fixed_obj
         self.prog = []
@@ -115,9 +116,12 @@ class Gen:
         rng = self.rng
         h = self.fresh("e")
         if rng.random() < 0.25:
-            uops = ["neg", "abs"]
-            x = {"h": self.pick_prior()} if depth >= 1 or rng.random() < 0.7 else {"h": self.arith_expr(depth + 1)}
-            self.prog.append({"op": "modif", "h": h, "uop": rng.choice(uops), "x": x})
+            uop = rng.choice(["neg", "abs", "neg", "abs", "log", "log10"] if self.allow_log else ["neg", "abs"])
+            if uop in ("log", "log10"):
+                x = {"h": self.pick_positive_prior()}  # logarithms of a strictly positive parameter
+            else:
+                x = {"h": self.pick_prior()} if depth >= 1 or rng.random() < 0.7 else {"h": self.arith_expr(depth + 1)}
+            self.prog.append({"op": "modif", "h": h, "uop": uop, "x": x})
             return h
         ops = ["add", "sub", "mul", "div", "add", "mul", "sub"]
         if self.allow_pow:
